@@ -174,3 +174,36 @@ func Explore(t *testing.T, h Harness, bound int, shard, nshards int, deadline ti
 	st.BoundDone = bound
 	return st
 }
+
+// FreeRun executes the harness body n times WITHOUT the controlled scheduler (the Go scheduler decides), each
+// time in a fresh bubble. It exists for the separate free-running race-detector pass: under the controlled
+// scheduler every hand-off is a happens-before edge, which blinds the detector; here only the synchronisation of
+// the code under test orders its accesses. Oracle results of these runs are ignored (they are samples, not
+// enumerated, and not replayable); only what the race detector prints counts. Returns the runs completed.
+func FreeRun(t *testing.T, h Harness, n int) int {
+	done := 0
+	for i := 0; i < n; i++ {
+		// in a goroutine of its own: when the detector reports a race inside the bubble, synctest.Test ends the
+		// calling goroutine (runtime.Goexit), which must not be the test's
+		fin := make(chan struct{})
+		go func() {
+			defer close(fin)
+			defer func() { recover() }() // leftover goroutines / deadlocks of a sampled schedule are not judged here
+			synctest.Test(t, func(t *testing.T) {
+				body, _ := h.Setup()
+				body()
+				synctest.Wait()
+			})
+		}()
+		<-fin
+		done++
+	}
+	return done
+}
+
+// FreeRuns: number of free-running executions per scenario asked for by the driver's race pass (0 = not a race pass).
+func FreeRuns() int {
+	n := 0
+	fmt.Sscan(os.Getenv("VERIF_FREERUN"), &n)
+	return n
+}
